@@ -276,6 +276,8 @@ impl VM {
                 .thread_queue
                 .pop_front()
                 .expect("We already know a thread is present");
+            #[cfg(smlxl_storage_layout_extractor_verif)]
+            crate::verif::log_retired(instruction_pointer, thread.gas_usage());
             self.stored_states.push(thread.into());
 
             // The thread no longer is the current, so whether is was or wasn't killed the
